@@ -161,3 +161,16 @@ class RoleChecker:
                         yield ("bad", txt, "comparison mixes axes: " + ", ".join(f"{s} ({a})" for a, s in leaves))
                     else:
                         yield ("ok", txt, "")
+
+
+def infer_local_axes(func, rc):
+    """Axis of un-named locals from what is assigned to them: {name: {axes}} over all plain assignments whose value
+    has axis-typed leaves (constants carry no axis). A local with exactly one inferred axis can then be used as a
+    typed leaf (rc.name_axes); one with several is itself an inhomogeneity."""
+    out = {}
+    for n in ast.walk(func):
+        if isinstance(n, ast.Assign) and len(n.targets) == 1 and isinstance(n.targets[0], ast.Name) and name_axis(n.targets[0].id) is None:
+            kinds = {a for a, _ in rc.axes(n.value)}
+            if kinds:
+                out.setdefault(n.targets[0].id, set()).update(kinds)
+    return out
